@@ -46,7 +46,9 @@ def glob_digest():
         except Exception:
             continue
         for name, val in sorted(vars(mod).items()):
-            if name.startswith("__"):
+            if name.startswith("_"):
+                # private module state (a memo, a counter) is an implementation detail: it matters only through the results of
+                # later calls, which are compared anyway; the property freezes the public lookup tables
                 continue
             if isinstance(val, (dict, list, tuple, set, frozenset, int, float, str, bool)):
                 if isinstance(val, (set, frozenset)):
